@@ -289,7 +289,20 @@ def _samedoc(ck, p, byk):
             saved_local = save[0][1]["dest"][0]
             merged_saved = pv.mut_base.get(place_of(mrg[1]["args"][1])[0]) == saved_local if place_of(mrg[1]["args"][1]) else False
             merge_target = {"lint_group", "config"} <= arg_fields(pv, mrg[1]["args"][0])
-            order = cfg.dominates(save[0][0], a_lg[0][0]) and cfg.dominates(a_lg[0][0], mrg[0])
+            if not merge_target and "config" in arg_fields(pv, mrg[1]["args"][0]):
+                # merged into the new group while it is still a local that is stored into self.lint_group afterwards
+                recv = pv.mut_base.get(place_of(mrg[1]["args"][0])[0]) if place_of(mrg[1]["args"][0]) else None
+                stored = {place_of(s_["rv"]["op"])[0] for _, _, s_ in a_lg if s_["rv"]["k"] == "use" and place_of(s_["rv"]["op"])}
+                grew = True
+                while grew:         # _17 = move _7; self.lint_group = move _17
+                    grew = False
+                    for b_ in f.blocks:
+                        for s2 in b_["s"]:
+                            if s2["k"] == "assign" and len(s2["lhs"]) == 1 and s2["lhs"][0] in stored and s2["rv"]["k"] == "use" and place_of(s2["rv"]["op"]) and place_of(s2["rv"]["op"])[0] not in stored:
+                                stored.add(place_of(s2["rv"]["op"])[0])
+                                grew = True
+                merge_target = recv is not None and recv in stored
+            order = cfg.dominates(save[0][0], a_lg[0][0]) and (cfg.dominates(a_lg[0][0], mrg[0]) or (cfg.dominates(new[0], mrg[0]) and cfg.dominates(mrg[0], a_lg[0][0])))
             ok = from_user and dict_assigned and lg_from_dict and lg_assigned and merged_saved and merge_target and order
             detail = "dictionary rebuilt from user_dictionary=%s and stored=%s; lint_group rebuilt from it=%s and stored=%s; saved config re-merged into the new group=%s/%s; config saved before the group is replaced=%s" % (from_user, dict_assigned, lg_from_dict, lg_assigned, merged_saved, merge_target, order)
         ck.decide(rule, "Linter::synchronize_lint_dict", ok, f.span, detail)
